@@ -4,6 +4,7 @@ import ast
 import itertools
 from ..core import Result
 from ..pm import AnalysisError, unparse
+from ..match import Code
 from ..rat import (Ev, Rat, Sym, Poly, fn_eval, rat_eq, Inconclusive, ONE,
                    ZERO, const_of)
 
@@ -182,7 +183,7 @@ def config_table(ctx):
     # Aperture constructor mirrors the rule
     ap = P.func('Aperture.__init__')
     res.saw(ap)
-    s = unparse(ap.node, 3000)
+    s = Code(P, ap)
     if "aperture_type not in ['EPD', 'imageFNO', 'objectNA']" in s and \
             "aperture_type in ['EPD', 'imageFNO'] and object_space_telecentric" \
             in s and s.count('raise ValueError') >= 2:
@@ -368,7 +369,7 @@ def aim(ctx):
                                  construct=f'{name}: ray init'))
     rr = P.func('RealRays.__init__')
     res.saw(rr)
-    s = unparse(rr.node, 3000)
+    s = Code(P, rr)
     if 'self.opd = np.zeros_like(self.x)' in s:
         res.ok('RealRays start with zero accumulated path')
     else:
@@ -404,7 +405,7 @@ def trace_entry(ctx):
     for q in ('Optic.trace', 'Optic.trace_generic'):
         f = P.func(q)
         res.saw(f)
-        s = unparse(f.node, 6000)
+        s = Code(P, f)
         gr = [c for c in ast.walk(f.node) if isinstance(c, ast.Call) and
               isinstance(c.func, ast.Attribute) and
               c.func.attr == 'generate_rays']
@@ -467,7 +468,7 @@ def trace_entry(ctx):
                                  f'{q} does not trace the generated rays',
                                  construct=f'{q} surface trace'))
     f = P.func('Optic.trace')
-    s = unparse(f.node, 6000)
+    s = Code(P, f)
     if 'distribution = create_distribution(distribution)' in s and \
             'distribution.generate_points(num_rays, vx, vy)' in s and \
             'isinstance(distribution, str)' in s:
@@ -479,7 +480,7 @@ def trace_entry(ctx):
                              'with the requested count',
                              construct='Optic.trace distribution'))
     g = _rg(P).methods['generate_rays']
-    s = unparse(g.node, 9000)
+    s = Code(P, g)
     if 'vx, vy = 1 - np.array(self.optic.fields.get_vig_factor(Hx, Hy))' in s:
         res.ok('generator: pupil factor (1 - v) of the requested field')
     else:
@@ -770,7 +771,7 @@ def registry(ctx):
                              construct='dist unknown'))
     g = P.func('FieldGroup.get_vig_factor')
     res.saw(g)
-    s = unparse(g.node, 5000)
+    s = Code(P, g)
     checks = [
         ('idx_sorted = np.argsort(self.y_fields)' in s, 'fields sorted by y'),
         ('h_sorted = self.y_fields[idx_sorted] / self.max_y_field' in s,
